@@ -61,6 +61,11 @@ impl Str {
     // R4: `self.chars().count()`
     #[verifier::external_body]
     pub fn chars_count(&self) -> (n: usize) ensures n == self@.len() { unimplemented!() }
+    // other unit counts of a string (bytes, UTF-16 code units): left unspecified except for bytes
+    #[verifier::external_body]
+    pub fn bytes_count(&self) -> (n: usize) ensures n == byte_len(self@) { unimplemented!() }
+    #[verifier::external_body]
+    pub fn encode_utf16_count(&self) -> (n: usize) { unimplemented!() }
     // StringExt::size (rivia): contract proved against the real body in unit core_string
     #[verifier::external_body]
     pub fn size(&self) -> (n: usize) ensures n == self@.len() { unimplemented!() }
